@@ -43,6 +43,10 @@ def run(chk):
         dict(flavour="asan-ubsan", scen="full", runs=(128, 8000), opts={"cb": 2, "globalDomain": 1, "varyScale": 10, "zeroAreaMovable": 1, "timeout": chk.pick(40, 300)}),
         dict(flavour="ubsan-rel", scen="det", runs=(208, 12000), opts={"cb": 2, "varyScale": 10, "maxMovable": 24, "timeout": chk.pick(40, 300)}),
         dict(flavour="dbg", scen="full", runs=(128, 8000), opts={"cb": 2, "globalDomain": 1, "varyScale": 10, "maxMovable": 16, "timeout": chk.pick(40, 300)}),
+        # large designs (sum of cell areas between 2^31 and 2^32, every cell far below) and designs far from the origin
+        dict(flavour="asan-ubsan", scen="full", runs=(64, 4000), opts={"cb": 2, "globalDomain": 1, "hugeArea": 1, "maxMovable": 30, "utilHi": 0.9, "multiRow": 0,
+                                                                      "timeout": chk.pick(40, 300)}),
+        dict(flavour="asan-ubsan", scen="det", runs=(96, 6000), opts={"cb": 2, "translate": 1, "maxMovable": 16, "timeout": chk.pick(40, 300)}),
     ]
     run_plan(chk, "C07", plan, nontrivial)
     chk.cov["rule"] = ("every case of the TLC-emitted table (13 degenerate shapes x magnitudes 2^0, 2^10, 2^16, 2^20, 2^22 x variants; cell areas < 2^31) and seeded "
